@@ -24,6 +24,16 @@ KNOWN_GROUPS = {
 def known_class(f, case, impl, clause):
     """class predicate of the known findings c11-rfc-*: the failing clause names a documented deviation
     that belongs to the finding (f['class'] = comma separated deviation names)"""
+    if f.get('id') == 'c11-rfc-combined' and clause.startswith('fails rfc-result rfc=') and 'impl=7' in clause \
+            and 'rfc=QsmtpModel.Spec.Spf.Res.permerror' in clause and 'dialect=QsmtpModel.Spec.Spf.Res.permerror' in clause:
+        # two documented deviations in one term, in an order the dialect evaluation does not reproduce: the %{p} macro
+        # of a modifier is expanded in passing and its failing PTR lookup reported (temperror) before the syntax error
+        # further right in the same term is noticed (permerror in RFC 7208 and in the dialect, which checks the syntax
+        # of a term as a whole first)
+        toks = case.split(' ')
+        ptr_err = any(t.startswith('PE:') for t in toks)
+        p_macro = any(t.startswith('T:') and any(m in t.split(':', 2)[2] for m in ('3d257b70', '3d257b50', '2e257b70', '2e257b50')) for t in toks)
+        return ptr_err and p_macro
     if not clause.startswith('fails rfc-result deviation='):
         return False
     dev = clause.split('deviation=', 1)[1].strip()
